@@ -116,8 +116,8 @@ theorem execG_safe {α : Type} (bad : UB → Prop) (G : CbEvent → Prop) (I : H
   | ub u => exact ⟨hp, hs⟩
   | sread reg n k ih =>
     simp only [execG]
-    obtain ⟨r, w', he, hs'⟩ := sread_sz (cached := cached) hs reg n hall.1
-    rw [he]; exact ih r (hp r) (hall.2 r) w' hs' (CbsOk_of_eq (sread_cbs he) hg)
+    obtain ⟨r, w', he, hs', hb⟩ := sread_sz (cached := cached) hs reg n hall.1
+    rw [he]; exact ih r (hp r hb) (hall.2 r) w' hs' (CbsOk_of_eq (sread_cbs he) hg)
   | rread reg k ih =>
     simp only [execG]
     obtain ⟨r, w', he, hs'⟩ := rread_sz (cached := cached) hs reg hall.1
@@ -321,11 +321,10 @@ example : memBad .oobPacket ∧ memBad .oobShadow ∧ memBad .oobCaller ∧ memB
 
 /-! ## Float → integer conversions (the class `castRange` that `C08_memory_safe` leaves out)
 
-    Six of the driver's conversions are proved defined for **every** input here (carrier encode and
-    decode, ppm correction, bit rate, deviation, packet RSSI refinement); the remaining ones
-    (frequency error decode, beacon timers) are covered for the register widths / documented
-    range by `C12_*_frequency_error` and `C14_every_interval` (each says `= some …`) and otherwise
-    by the sanitizer builds. -/
+    All eight conversion sites of the driver are proved defined for **every** input here (carrier
+    encode and decode, ppm correction, bit rate, deviation, packet RSSI refinement, frequency-error
+    decode, beacon timers), each as a `Prog.Safe` statement for the class `castRange`: every answer
+    of chip and bus, a register read of `n` bytes answering any value below `2^(8n)`. -/
 
 /-- the class of undefined behaviour these theorems are about -/
 def castBad (u : UB) : Prop := u = .castRange
@@ -503,6 +502,172 @@ theorem C08_cast_packet_rssi : SafeI castBad (fun _ => True) (fun _ => True) rxG
       · exact SafeI_fail _
       · exact SafeI_bind (SafeI_modH _ (fun _ _ => trivial)) (fun _ => SafeI_pure _)
     · exact SafeI_fail _
+
+
+/-! the frequency-error decoders: the register read hands a value below `2^(8n)` to the conversion (`SafeI_sread_bind`) -/
+
+theorem pos_mul {x y : F} {a b c d : Rat} (hx : Pos x a b) (hy : Pos y c d) (ha : (1 : Rat) / 1000000 ≤ a) (hb : b ≤ 10000000000)
+    (hc : (1 : Rat) / 1000000 ≤ c) (hd : d ≤ 1000000) : Pos (F.mul b32 x y) (a * c / 2) (2 * (b * d)) := by
+  obtain ⟨p, rfl, p1, p2⟩ := hx
+  obtain ⟨q, rfl, q1, q2⟩ := hy
+  have hmul : F.mul b32 (.fin p) (.fin q) = F.round b32 (p * q) := rfl
+  rw [hmul]
+  have hp : 0 < p := by linarith
+  have hq : 0 < q := by linarith
+  have ha0 : 0 < a := by linarith
+  have hc0 : 0 < c := by linarith
+  exact pos_round (p * q) (a * c) (b * d) (by nlinarith) (by nlinarith) (by nlinarith) (by nlinarith)
+
+/-- the LoRa frequency-error conversion is defined for every 3-byte register value and every bandwidth
+    the chip can report -/
+theorem lora_freq_error_some (raw : UInt32) (h : raw.toNat < 2 ^ 24) (bw : Nat) (hbw : LoraBw bw) :
+    ∃ v, loraFreqError raw bw = some v := by
+  have hbw24 : 0 < bw ∧ bw < 2 ^ 24 := by
+    rcases hbw with e | e | e | e | e | e | e | e | e | e <;> subst e <;> norm_num
+  have hbwr : (7800 : Rat) ≤ (bw : Rat) ∧ (bw : Rat) ≤ 500000 := by
+    rcases hbw with e | e | e | e | e | e | e | e | e | e <;> subst e <;> norm_num
+  unfold loraFreqError
+  simp only
+  rw [factor_value, f32_500000, ofNat32_exact bw hbw24.1 hbw24.2]
+  -- the magnitude, whichever branch computed it, is below 2^24
+  generalize hmag : (if raw &&& 0x80000 ≠ 0 then (~~~raw + 1) &&& 0xFFFFF else raw) = mag
+  have hm : mag.toNat < 2 ^ 24 := by
+    rw [← hmag]
+    split
+    · have : ((~~~raw + 1) &&& 0xFFFFF).toNat ≤ 0xFFFFF := by
+        rw [UInt32.toNat_and]; exact Nat.and_le_right
+      omega
+    · exact h
+  generalize hsign : (if raw &&& 0x80000 ≠ 0 then (-1 : Int) else 1) = sign
+  have hs : sign = -1 ∨ sign = 1 := by rw [← hsign]; split <;> simp
+  rcases Nat.eq_zero_or_pos mag.toNat with hz | hpos
+  · -- zero magnitude: everything is zero
+    have h0 : F.ofNat b32 mag.toNat = .fin 0 := by rw [hz]; unfold F.ofNat; simpa using round_zero
+    rw [h0]
+    have e1 : F.mul b32 (F.fin 0) (F.fin (8796093 / 16777216)) = .fin 0 := by
+      show F.round b32 (0 * _) = _; rw [zero_mul, round_zero]
+    rw [e1]
+    have e2 : F.mul b32 (F.fin 0) (F.fin (bw : Rat)) = .fin 0 := by
+      show F.round b32 (0 * _) = _; rw [zero_mul, round_zero]
+    rw [e2]
+    have e3 : F.div b32 (F.fin 0) (F.fin 500000) = .fin 0 := by
+      have : F.div b32 (F.fin 0) (F.fin 500000) = F.round b32 (0 / 500000) := by simp [F.div]
+      rw [this, zero_div, round_zero]
+    rw [e3]
+    have e4 : F.mul b32 (F.ofInt b32 sign) (F.fin 0) = .fin 0 := by
+      rcases hs with e | e <;> rw [e]
+      · rw [ofInt_neg_one]; show F.round b32 (-1 * 0) = _; rw [mul_zero, round_zero]
+      · rw [ofInt_one]; show F.round b32 (1 * 0) = _; rw [mul_zero, round_zero]
+    rw [e4]
+    unfold F.toSInt F.truncQ
+    have hf : Rat.floor 0 = 0 := by rw [rfloor_eq]; exact Int.floor_zero
+    simp [hf]
+  · rw [ofNat32_exact _ hpos hm]
+    have hmr1 : (1 : Rat) ≤ (mag.toNat : Rat) := by exact_mod_cast hpos
+    have hmr2 : (mag.toNat : Rat) ≤ 16777216 := by
+      have : (mag.toNat : Rat) < 16777216 := by exact_mod_cast hm
+      linarith
+    have PM : Pos (F.fin (mag.toNat : Rat)) 1 16777216 := ⟨_, rfl, hmr1, hmr2⟩
+    have PF : Pos (F.fin (8796093 / 16777216)) (8796093 / 16777216) (8796093 / 16777216) := ⟨_, rfl, le_refl _, le_refl _⟩
+    have PB : Pos (F.fin (bw : Rat)) 7800 500000 := ⟨_, rfl, hbwr.1, hbwr.2⟩
+    have PD : Pos (F.fin 500000) 500000 500000 := ⟨_, rfl, le_refl _, le_refl _⟩
+    have T1 := pos_mul PM PF (by norm_num) (by norm_num) (by norm_num) (by norm_num)
+    have T2 := pos_mul T1 PB (by norm_num) (by norm_num) (by norm_num) (by norm_num)
+    have T3 := pos_div T2 PD (by norm_num) (by norm_num) (by norm_num) (by norm_num)
+    obtain ⟨P3, hP3, p3a, p3b⟩ := T3
+    rw [hP3]
+    have hP3pos : 0 < P3 := by
+      have : (0 : Rat) < 1 * (8796093 / 16777216) / 2 * 7800 / 2 / 500000 / 2 := by norm_num
+      linarith
+    have q1 : (2 : Rat) ^ (-(100 : Int)) ≤ P3 := by
+      rw [em100]
+      have : (1 : Rat) / 1267650600228229401496703205376 ≤ 1 * (8796093 / 16777216) / 2 * 7800 / 2 / 500000 / 2 := by norm_num
+      linarith
+    have q2 : P3 ≤ (2 : Rat) ^ (100 : Int) := by
+      rw [e100]
+      have : 2 * (2 * (2 * ((16777216 : Rat) * (8796093 / 16777216)) * 500000) / 500000) ≤ 1267650600228229401496703205376 := by norm_num
+      linarith
+    obtain ⟨e, herr⟩ := round32w P3 q1 q2
+    have habs := abs_le.mp herr
+    have hr0 : 0 < rnd 24 (-126) P3 := by nlinarith [habs.1]
+    have hr1 : rnd 24 (-126) P3 < 2147483648 := by
+      have : P3 ≤ 2 * (2 * (2 * ((16777216 : Rat) * (8796093 / 16777216)) * 500000) / 500000) := p3b
+      have : P3 ≤ 140737488 := by linarith [this, show 2 * (2 * (2 * ((16777216 : Rat) * (8796093 / 16777216)) * 500000) / 500000) = 70368744 from by norm_num]
+      nlinarith [habs.2]
+    rcases hs with e1 | e1 <;> rw [e1]
+    · rw [ofInt_neg_one]
+      have hm1 : F.mul b32 (F.fin (-1)) (F.fin P3) = F.round b32 (-P3) := by
+        show F.round b32 (-1 * P3) = _; rw [neg_one_mul]
+      rw [hm1]
+      have hfin : rnd b32.p b32.emin P3 < (2 : Rat) ^ (b32.emax + 1) := by
+        show rnd 24 (-126) P3 < (2 : Rat) ^ ((127 : Int) + 1)
+        have : (2147483648 : Rat) ≤ (2 : Rat) ^ ((127 : Int) + 1) := by norm_num
+        linarith
+      rw [round_neg_fin b32 P3 hfin (le_of_lt hr0)]
+      exact ⟨_, toSInt_neg' _ hr0 hr1⟩
+    · rw [ofInt_one]
+      have hm1 : F.mul b32 (F.fin 1) (F.fin P3) = F.round b32 P3 := by
+        show F.round b32 (1 * P3) = _; rw [one_mul]
+      rw [hm1, e, toSInt_pos' _ hr0 hr1]
+      exact ⟨_, rfl⟩
+
+theorem bw_of_code (c : UInt8) (b : Nat) (h : bandwidthOfCode c = some b) : LoraBw b := by
+  unfold bandwidthOfCode at h
+  unfold LoraBw
+  repeat' split at h
+  all_goals first | (cases h; simp) | (cases h)
+
+theorem bw_post (h : Handle) :
+    (loraGetBandwidth h).fwp false (fun _ rh => ∀ b, rh.1 = .ok b → LoraBw b) := by
+  unfold loraGetBandwidth checkModulation
+  simp only [fwp_bind', fwp_getH, fwp_rread, fwp_pure, fwp_ite, fwp_fail]
+  split
+  · intro b e; cases e
+  · refine ⟨fun v => ?_, fun c b e => by cases e⟩
+    cases hb : bandwidthOfCode (v >>> 4) with
+    | none => simp only [fwp_fail]; intro b e; cases e
+    | some b0 =>
+      simp only [fwp_pure]
+      intro b e
+      have : b = b0 := by cases e; rfl
+      rw [this]; exact bw_of_code _ _ hb
+
+theorem cs_getBw : SafeI castBad (fun _ => True) (fun _ => True) loraGetBandwidth := by
+  unfold loraGetBandwidth checkModulation
+  apply SafeI_bind
+  · apply SafeI_getH_bind; intro h _
+    apply SafeI_ite
+    · intro _; exact SafeI_fail _
+    · intro _; exact SafeI_pure _
+  intro _
+  apply SafeI_bind (SafeI_rread _); intro v
+  split
+  · exact SafeI_pure _
+  · exact SafeI_fail _
+
+/-- **C08, `sx127x_rx_get_frequency_error`.** For every content of the frequency-error registers
+    (three bytes in LoRa, two in FSK/OOK - the read hands a value below `2^24` resp. `2^16` to the
+    conversion), every bandwidth the chip can report, every handle and answer: the conversions to
+    `int32_t` are defined. -/
+theorem C08_cast_frequency_error : SafeI castBad (fun _ => True) (fun _ => True) rxGetFrequencyError := by
+  unfold rxGetFrequencyError
+  apply SafeI_getH_bind; intro h _
+  apply SafeI_ite
+  · intro _
+    apply SafeI_sread_bind; intro raw hraw
+    refine SafeI_bind_post (fun r _ => ∀ b, r = .ok b → LoraBw b) cs_getBw bw_post ?_
+    intro b h' _ hq
+    obtain ⟨v, hv⟩ := lora_freq_error_some raw (by simpa using hraw) b (hq b rfl)
+    rw [hv]
+    exact trivial
+  · intro _
+    apply SafeI_ite
+    · intro _
+      apply SafeI_sread_bind; intro raw hraw
+      obtain ⟨v, hv, _⟩ := C12_fsk_frequency_error raw (by simpa using hraw)
+      rw [hv]
+      exact SafeI_pure _
+    · intro _; exact SafeI_fail _
 
 end casts2
 
